@@ -652,9 +652,8 @@ class Hdf5Saver:
             if type_repr != REPR_INT or 'no native HDF5 equivalent' not in e.args[0]:
                 raise
             # convert int to str that can easily be saved
-            obj = str(obj)
             type_repr = REPR_INT_AS_STR
-            self.h5group[path] = obj
+            self.h5group[path] = str(obj)
         h5gr = self.h5group[path]
         h5gr.attrs[ATTR_TYPE] = type_repr
         self.memorize_save(h5gr, obj)
